@@ -58,6 +58,9 @@ Less(a, b) == a[1] < b[1] \/ (a[1] = b[1] /\ a[2] < b[2])
 Ordered(S) == IF S = {} THEN <<>> ELSE LET m == CHOOSE x \in S : \A y \in S : x = y \/ Less(x, y) IN <<m>> \o Ordered(S \ {m})
 
 Init == /\ line \in Lines /\ work = <<Root>> /\ idx = 1 /\ hts = <<>> /\ phase = "measure"
+\* (simulation of longer lines: three random chains per behaviour)
+InitSample == /\ line = <<RandomElement(Chain), RandomElement(Chain), RandomElement(Chain)>>
+              /\ work = <<Root>> /\ idx = 1 /\ hts = <<>> /\ phase = "measure"
 Measure == /\ phase = "measure" /\ idx <= Len(work)
            /\ hts' = Append(hts, Up(work[idx]) + Down(work[idx]))
            /\ work' = work \o Ordered(Discover(work[idx]))          \* the worklist grows while it is walked
